@@ -390,6 +390,10 @@ def rules(ck, P):
                      "the result depends on whether a lock is free: the contended path applies %s, the uncontended path %s (difference %s) — concurrent calls can return what a call running alone never returns"
                      % (sorted(sums[0]), sorted(sums[1]) if len(sums) > 1 else [], sorted(set.union(*sums) - set.intersection(*sums))), ir.loc(n))
     ck.ok("R-CONTENTION", "census", "%d contention-dependent branches (try_lock & co.) in reader types; each must apply the same transformations on both outcomes" % n_try)
+    # the caches behind the mutexes are transparent only if a cached value is a function of its key: with an aliasing key (two blocks,
+    # two levels, two directories under one key) whoever asks first decides what every later caller gets (shared with C16)
+    from . import c16 as _c16
+    _c16._cache_key_rules(ck, P)
     # set-once cells are accepted as interior state because initialisation is race-free — which holds for get_or_init / get_or_try_init
     # (all callers get the winner's value) but not for "if empty { set(x).unwrap() }": of two first callers one loses the race, `set`
     # returns Err(x) and the unwrap panics, so the concurrent call does not return what it returns when run alone
